@@ -26,6 +26,7 @@ type Query { friend: Friend feed: Feed feeds: [Feed] node(id: [ID]): Node whoeve
 type Mutation { like(story: Int): Like }
 type Subscription { storyLikeSubscribe(input: StoryLikeSubscribeInput): Like }
 '''
+HUGE = 10 ** 5000      # beyond the interpreter's int -> str digit limit (4300)
 SCHEMA_B = "type Query { a: String b: B } type B { c: [B!]! d(x: Int = 1): Int }"
 
 
@@ -65,6 +66,30 @@ def semantic_corpus():
     yield "query ($v: Int, $x: Float, $site: Site, $a: Boolean, $foo: ComplexType) { friend { foo(size: $v, fl: $x, e: $site, t: $a, obj: $foo) } }"
     yield "query ($v: [Int], $a: String = \"d\", $x: ID) { f(a: $v) node(id: [$x]) { id } unnamed(truthy: true) @include(if: true) }"
     yield "subscription ($input: StoryLikeSubscribeInput) { storyLikeSubscribe(input: $input) { story { id } } }"
+    # every operation shape with and without name, variables and directives (short form included)
+    for op, body in (("query", "{ a }"), ("mutation", "{ like(story: 1) { story { id } } }"),
+                     ("subscription", "{ storyLikeSubscribe(input: {id: 1}) { story { id } } }")):
+        for name in ("", " N"):
+            for vars_ in ("", "($v: Int)", "($v: Int = 1 @onQuery)"):
+                for d in ("", " @onQuery", " @unknown", " @skip(if: true)", " @onQuery @onQuery", " @onQuery(a: \"x\")"):
+                    yield f"{op}{name}{vars_}{d} {body}"
+    # string values whose printed form differs from their source form (block strings with leading tab or
+    # space, trailing quote or backslash, long single lines, escapes)
+    TAB, BS, Q = chr(9), chr(92), chr(34)
+    T3 = Q * 3
+    for sv in (T3 + TAB + "say " + BS + T3 + "hi" + T3, T3 + TAB + "x" * 75 + T3, T3 + " lead" + T3,
+               T3 + TAB + "ends with a quote" + BS + T3 + T3, T3 + "a" + chr(10) + "  b" + chr(10) + " c" + T3,
+               T3 + TAB + "say " + Q + "hi" + Q + " " + T3, Q + BS + "u2029" + Q, Q + chr(0x2029) + Q, Q + chr(0x2028) + BS + "t" + Q,
+               Q + Q):
+        yield "{ unnamed(nullish: %s) @onField f(a: [%s]) }" % (sv, sv)
+        yield "{ a @stream(label: %s) b: a @stream(label: %s) }" % (sv, sv.replace(TAB, "", 1))
+    # names and numbers with digit runs beyond the interpreter's int <-> str digit limit (4300)
+    run = "7" * 5000
+    yield "{ f(b: {k%s: 1}) f(b: {k%sx: 1}) }" % (run, run)
+    yield "{ k%s: a k%s: query }" % (run, run)
+    yield "{ f(a: [%s]) unnamed(nullish: %s) }" % (run, run)
+    yield "{ f(a: [1.%s]) f(a: [1e%s]) }" % (run, run[:400])
+    yield "query ($k%s: Int = %s) { unnamed(nullish: $k%s) }" % (run, run, run)
     # names that later stages look up in tables / Enum classes without a guard of their own
     for nm in ("mro", "__doc__", "__members__", "name", "value", "_member_map_", "QUERY", "query"):
         yield "directive @d on %s\n{ a }" % nm
@@ -79,8 +104,8 @@ def semantic_corpus():
     yield "{ __typename ...T } fragment T on Query { __typename ...T }"
 
 
-HUGE = 10 ** 5000      # beyond the interpreter's int -> str digit limit (4300)
-VARIABLES = [None, {}, {"foo": {1: "k", "key": "k"}, "input": {None: 1, "id": 1}, "v": {}, "b": {("t",): 1}, "x": {b"id": 2}},
+VARIABLES = [None, {}, {"foo": {HUGE: 1, "key": "k"}, "b": [HUGE], "v": HUGE},
+             {"foo": {1: "k", "key": "k"}, "input": {None: 1, "id": 1}, "v": {}, "b": {("t",): 1}, "x": {b"id": 2}},
              {"foo": {"key": HUGE, "n": [HUGE]}, "site": HUGE, "v": HUGE, "input": {"id": HUGE},
                         "a": HUGE, "b": [HUGE], "x": HUGE}, {"foo": {"key": "k", "extra": 1}, "site": "MOBILE", "v": 7, "input": {"id": 1},
                         "a": "x", "b": [None]}]
@@ -127,6 +152,6 @@ def search(seed=0, thorough=False, budget_s=300):
                         assert isinstance(e.get("extensions", {}), dict)
                 except Exception as e:  # noqa: BLE001
                     return {"entry": "graphql_sync", "input": text[:400],
-                            "variables": "the mapping of 5000-digit integers (VARIABLES[3])" if vv and vv.get("v") == HUGE else repr(vv),
+                            "variables": "the mapping of 5000-digit integers (VARIABLES with 5000-digit integers)" if vv and vv.get("v") == HUGE else repr(vv)[:300],
                             "observed": f"{type(e).__name__}: {e}"}
     return None
